@@ -92,6 +92,12 @@ def run(ctx, exe, prop):
                 and c["last"] < c["chunks"] and c["bits"][c["last"]:c["last"] + 1] == "1" and c["last"] not in (r.get("sent") or [])):
             ctx.violation(f"{prop}:unverified-chunk-trusted", f"the last recorded chunk {c['last']} (hash {c['hash']}) did not travel although it could not be verified "
                           f"(report bits {c['bits']}, tail {c['tail']}, verify {c['verify']!r}); the sender reported success", {"case": c, "result": r})
+    # FileEnd announces the number of chunk frames that were written for the file (a resuming receiver waits for that many)
+    for c, r in zip(cases, res):
+        if r.get("sender_ok") and r.get("file_end_count", -1) >= 0 and r["file_end_count"] != len(r.get("sent") or []):
+            ctx.violation(f"{prop}:file-end-count", f"FileEnd announced {r['file_end_count']} chunk frames but {len(r.get('sent') or [])} were written "
+                          f"({c['streams']} streams, report bits {c['bits']})", {"case": c, "result": r})
+            break
     ctx.oblige("correspondence:resume-plan", not diffs, "; ".join(f"{d[0]['name']}: {d[3]}" for d in diffs[:3]))
     for c, r, m, why in diffs[:5]:
         # a disagreement where a chunk the report does not mark travels nowhere is the property's failure itself
